@@ -134,7 +134,10 @@ func c05Run(o *out, input string) {
 	e.code, e.msg, e.details, e.k = uint32(c), msg, details, k
 	path := "/c05/unary"
 	full := "/verif.c05.Esvc/Unary"
-	if k >= 0 && (proto_ == "ws" || f[6] == "stream") {
+	// "+<n>" after the shape: the request names a media type no codec is registered under
+	shape, ctv, _ := strings.Cut(f[6], "+")
+	reqCT := map[string]string{"": "", "1": "text/plain; charset=utf-8", "2": "image/jpeg", "3": "application/json; charset=utf-8"}[ctv]
+	if k >= 0 && (proto_ == "ws" || shape == "stream") {
 		path, full = "/c05/stream", "/verif.c05.Esvc/Stream"
 	}
 	stobs := func(st *spb.Status) string {
@@ -145,6 +148,9 @@ func c05Run(o *out, input string) {
 		r := httptest.NewRequest("GET", path, nil)
 		if proto_ == "http-proto" {
 			r.Header.Set("Accept", "application/protobuf")
+		}
+		if reqCT != "" {
+			r.Header.Set("Content-Type", reqCT)
 		}
 		w, p := serveRec(e.mux, r)
 		if p != "" {
@@ -382,6 +388,9 @@ func c05Gen(o *out, r *rng, tier string) {
 		for _, c := range codesList {
 			emit(p, c, "msg", false, 0, "unary")
 			emit(p, c, "with details", true, 0, "unary")
+			if p == "http-json" && c != 0 { // (a success reply under a media type without a codec is C04's business)
+				emit(p, c, "msg", c%2 == 0, 0, fmt.Sprintf("unary+%d", 1+c%3))
+			}
 		}
 		// every message with two codes
 		for i, m := range msgs {
